@@ -447,7 +447,11 @@ func childMain(spec, outFile string) {
 		vh.Die("child out: %v", err)
 	}
 	enc := json.NewEncoder(f)
+	hangs := 0
 	for _, wl := range wls {
+		if hangs >= 2 {
+			break // two deadlocks observed in this batch: enough, the rest would only wait
+		}
 		var co childOut
 		switch wl.Kind {
 		case "hammer":
@@ -458,6 +462,14 @@ func childMain(spec, outFile string) {
 			co = childOut{WL: wl, Stress: &st}
 		default:
 			co = childOut{WL: wl, Wins: runWorkload(wl)}
+		}
+		if co.Stress != nil && co.Stress.Bad == 2 {
+			hangs++
+		}
+		for _, w := range co.Wins {
+			if w.Hung {
+				hangs++
+			}
 		}
 		if err := enc.Encode(co); err != nil {
 			vh.Die("child encode: %v", err)
@@ -677,6 +689,9 @@ func main() {
 			hi = len(wls)
 		}
 		e.modeA("A:windows", wls[b*20:hi], o.Out, fmt.Sprintf("b%d", b))
+		if meta.Histogram["win:hang"] >= 2 {
+			break // deadlocks observed: the remaining batches would only wait for the watchdog
+		}
 	}
 	// stress runs: readers vs writers on one leaf, and every exported method
 	nh, na, per := 40, 12, 400
